@@ -488,6 +488,9 @@ func verifyCRLSignature(result *crlreader.CRLReadResult, chains *core.Certificat
 	var signatureCert *core.CertificateChainEntry
 	crlVerified := false
 	for _, certCandidate := range certCandidates {
+		if !certCandidate.IsEntitledCRLSigner() {
+			continue
+		}
 		strategies := result.HashAndVerifyStrategy
 		err := strategies.VerifyStrategy.VerifySignature(strategies.HashStrategy, certCandidate.Certificate.PublicKey, result.CalculatedSignature, result.Signature.Bytes)
 		if err == nil {
